@@ -50,17 +50,55 @@ type form struct {
 	version uint64
 	codec   uint64
 	mhtype  uint64
-	mhlen   int // -1 = full
+	mhlen   int  // -1 = full
+	bad     bool // no digest can be computed for this prefix: Prefix().Sum fails
+}
+
+// CIDs whose hash cannot be recomputed: a digest longer than the function delivers, a multihash
+// code nobody knows, codes that are in go-multihash's table but have no hasher registered.
+var badForms = []form{
+	{"v1raw-sha256-len33", 8, 1, cid.Raw, mh.SHA2_256, 33, true},
+	{"v1raw-unknown-code", 9, 1, cid.Raw, 0x300001, 32, true},
+	{"v1raw-keccak224-nohasher", 10, 1, cid.Raw, 0x1a, 28, true},
+	{"v1pb-x11-nohasher", 11, 1, cid.DagProtobuf, 0x1100, 64, true},
+	{"v1raw-blake2b256-len40", 12, 1, cid.Raw, mh.BLAKE2B_MIN + 31, 40, true},
+}
+
+// fakeDigest is the digest a bad-form CID carries: derived from the data so that the stored
+// bytes look as plausible as possible (sha2-256 of the data, padded/cut to the advertised length).
+func fakeDigest(f form, data []byte) []byte {
+	s := sha256.Sum256(data)
+	d := append([]byte{}, s[:]...)
+	for len(d) < f.mhlen {
+		d = append(d, byte(len(d)))
+	}
+	return d[:f.mhlen]
+}
+
+// wantOf is the digest inside the CID that is requested for data under a form.
+func wantOf(f form, data []byte) []byte {
+	if f.bad {
+		return fakeDigest(f, data)
+	}
+	return indep(f, data)
+}
+
+// digOpt renders the independent digest of b under f as a Coq option: None when none exists.
+func digOpt(f form, b []byte) string {
+	if f.bad {
+		return "None"
+	}
+	return "(Some " + lit(indep(f, b)) + ")"
 }
 
 var forms = []form{
-	{"v0", 1, 0, cid.DagProtobuf, mh.SHA2_256, -1},
-	{"v1raw-sha256", 2, 1, cid.Raw, mh.SHA2_256, -1},
-	{"v1pb-sha256", 3, 1, cid.DagProtobuf, mh.SHA2_256, -1},
-	{"v1raw-blake2b256", 4, 1, cid.Raw, mh.BLAKE2B_MIN + 31, -1},
-	{"v1raw-sha512", 5, 1, cid.Raw, mh.SHA2_512, -1},
-	{"v1raw-sha256-trunc20", 6, 1, cid.Raw, mh.SHA2_256, 20},
-	{"v1raw-identity", 7, 1, cid.Raw, mh.IDENTITY, -1},
+	{"v0", 1, 0, cid.DagProtobuf, mh.SHA2_256, -1, false},
+	{"v1raw-sha256", 2, 1, cid.Raw, mh.SHA2_256, -1, false},
+	{"v1pb-sha256", 3, 1, cid.DagProtobuf, mh.SHA2_256, -1, false},
+	{"v1raw-blake2b256", 4, 1, cid.Raw, mh.BLAKE2B_MIN + 31, -1, false},
+	{"v1raw-sha512", 5, 1, cid.Raw, mh.SHA2_512, -1, false},
+	{"v1raw-sha256-trunc20", 6, 1, cid.Raw, mh.SHA2_256, 20, false},
+	{"v1raw-identity", 7, 1, cid.Raw, mh.IDENTITY, -1, false},
 }
 
 // indep computes the digest of data under a form WITHOUT go-multihash.
@@ -90,6 +128,13 @@ func indep(f form, data []byte) []byte {
 // mkCid builds the CID of data under a form through go-cid/go-multihash (the
 // code path a user takes); its digest is cross-checked against indep.
 func mkCid(t *testing.T, f form, data []byte) cid.Cid {
+	if f.bad {
+		h, err := mh.Encode(fakeDigest(f, data), f.mhtype)
+		if err != nil {
+			t.Fatal(err)
+		}
+		return cid.NewCidV1(f.codec, h)
+	}
 	h, err := mh.Sum(data, f.mhtype, f.mhlen)
 	if err != nil {
 		t.Fatal(err)
@@ -195,7 +240,7 @@ func TestC03(t *testing.T) {
 		"truncation length, extension by 1..3 bytes, a foreign block, absence, intact; (b) FileManager.Get and Filestore.Get of file references (std and mmap reader) after " +
 		"the file was overwritten at each offset, truncated to each length, extended, deleted, replaced by a directory; (c) URL references against an HTTP server answering " +
 		"with modified/truncated bodies and error codes. Digests in the cases come from crypto/sha256, crypto/sha512, x/crypto/blake2b. " +
-		"non-trivial = the stored bytes / file / body differ from what the reference was created for; distinct by (form, content, corruption)")
+		"All three streams also request CIDs whose hash cannot be recomputed (sha2-256/blake2b-256 code with an over-long digest, an unknown multihash code, table codes without a hasher) over arbitrary stored bytes. non-trivial = the stored bytes / file / body differ from what the reference was created for; distinct by (form, content, corruption)")
 	cs := vh.NewCases(e, "From V Require Import model.M_C03.\nOpen Scope N_scope.", "case", "check_case", 250)
 	ctx := context.Background()
 	in := &intern{ids: map[string]int{}}
@@ -226,12 +271,12 @@ func TestC03(t *testing.T) {
 		if present {
 			sid := in.id(stored)
 			storedCoq = fmt.Sprintf("(Some %d)", sid)
-			tab = append(tab, fmt.Sprintf("(%d, %d, %s)", f.id, sid, lit(indep(f, stored))))
+			tab = append(tab, fmt.Sprintf("(%d, %d, %s)", f.id, sid, digOpt(f, stored)))
 		}
 		got := outcome(err, func() string {
 			rid := in.id(blk.RawData())
 			if !present || rid != in.id(stored) {
-				tab = append(tab, fmt.Sprintf("(%d, %d, %s)", f.id, rid, lit(indep(f, blk.RawData()))))
+				tab = append(tab, fmt.Sprintf("(%d, %d, %s)", f.id, rid, digOpt(f, blk.RawData())))
 			}
 			return strconv.Itoa(rid)
 		})
@@ -301,6 +346,33 @@ func TestC03(t *testing.T) {
 		}
 	}
 
+	// CIDs whose hash cannot be recomputed: whatever is stored under their key, Get must answer with an error
+	for _, f := range badForms {
+		if _, err := mh.Sum([]byte("probe"), f.mhtype, f.mhlen); err == nil {
+			t.Logf("form %s: go-multihash can compute this digest now; form skipped", f.name)
+			continue
+		}
+		for _, n := range []int{0, 1, 32, 33, 100} {
+			data := make([]byte, n)
+			e.Rng.Read(data)
+			c := mkCid(t, f, data)
+			want := wantOf(f, data)
+			valCase(f, c, want, data, true, "uncomputable-plausible", true)
+			valCase(f, c, want, nil, false, "uncomputable-absent", false)
+			valCase(f, c, want, append([]byte{}, want...), true, "uncomputable-digest-as-data", true)
+			valCase(f, c, want, []byte{}, true, "uncomputable-empty", true)
+			for k := 0; k < 3 && n > 0; k++ {
+				mut := append([]byte{}, data...)
+				mut[e.Rng.Intn(n)] ^= byte(1 << uint(e.Rng.Intn(8)))
+				valCase(f, c, want, mut, true, fmt.Sprintf("uncomputable-flip@%d", k), true)
+			}
+			other := make([]byte, 1+e.Rng.Intn(64))
+			e.Rng.Read(other)
+			valCase(f, c, want, other, true, "uncomputable-foreign", true)
+			mds.Delete(ctx, rawKey(c))
+		}
+	}
+
 	// ================= (b) file references =================
 	T := t.TempDir()
 	fileSizes := []int{0, 1, 7, 16, 40}
@@ -359,10 +431,10 @@ func TestC03(t *testing.T) {
 		}
 		state, content := mutate(path)
 		fm.AllowFiles = allowAtGet
-		want := indep(f, data)
+		want := wantOf(f, data)
 		tab := map[string]string{}
 		addTab := func(b []byte) {
-			tab[string(b)] = fmt.Sprintf("(%d, %s, %s)", f.id, lit(b), lit(indep(f, b)))
+			tab[string(b)] = fmt.Sprintf("(%d, %s, %s)", f.id, lit(b), digOpt(f, b))
 		}
 		if state == "file" {
 			s, en := r.off, r.off+r.size
@@ -470,6 +542,31 @@ func TestC03(t *testing.T) {
 		}
 	}
 
+	// references whose multihash cannot be recomputed
+	for _, rd := range []string{"RStd", "RMmap"} {
+		for _, f := range badForms {
+			if _, err := mh.Sum([]byte("probe"), f.mhtype, f.mhlen); err == nil {
+				continue
+			}
+			orig := make([]byte, 16)
+			e.Rng.Read(orig)
+			for _, r := range []reg{{0, 16}, {2, 3}, {16, 0}} {
+				runFile(rd, f, orig, r, func(path string) (string, []byte) { return "file", orig }, "uncomputable-untouched", true, true)
+				runFile(rd, f, orig, r, func(path string) (string, []byte) {
+					mut := append([]byte{}, orig...)
+					mut[2] ^= 0x10
+					os.WriteFile(path, mut, 0o644)
+					return "file", mut
+				}, "uncomputable-overwrite@2", true, true)
+				runFile(rd, f, orig, r, func(path string) (string, []byte) {
+					os.WriteFile(path, orig[:1], 0o644)
+					return "file", orig[:1]
+				}, "uncomputable-truncate@1", true, true)
+				runFile(rd, f, orig, r, func(path string) (string, []byte) { os.Remove(path); return "gone", nil }, "uncomputable-deleted", true, true)
+			}
+		}
+	}
+
 	// ================= (c) URL references =================
 	var respCode int
 	var respBody []byte
@@ -497,7 +594,7 @@ func TestC03(t *testing.T) {
 		fm.AllowUrls = allow
 		respCode, respBody, lastRange = code, body, ""
 		tab := map[string]string{}
-		addTab := func(b []byte) { tab[string(b)] = fmt.Sprintf("(%d, %s, %s)", f.id, lit(b), lit(indep(f, b))) }
+		addTab := func(b []byte) { tab[string(b)] = fmt.Sprintf("(%d, %s, %s)", f.id, lit(b), digOpt(f, b)) }
 		if len(body) >= len(data) {
 			addTab(body[:len(data)])
 		}
@@ -518,7 +615,7 @@ func TestC03(t *testing.T) {
 			tabs = append(tabs, tab[k])
 		}
 		rp := map[string]any{"part": "url", "form": f.name, "offset": off, "size": len(data), "code": code, "bodylen": len(body), "mutation": kind, "get": got1}
-		cs.Add(vh.App("CUrl", vh.Bool(allow), strconv.Itoa(code), lit(body), strconv.Itoa(off), strconv.Itoa(len(data)), cidCoq(f, indep(f, data)),
+		cs.Add(vh.App("CUrl", vh.Bool(allow), strconv.Itoa(code), lit(body), strconv.Itoa(off), strconv.Itoa(len(data)), cidCoq(f, wantOf(f, data)),
 			vh.List(tabs), rng, got1, got2), rp)
 		st.Case(fmt.Sprintf("U|%s|%d|%d|%d|%s", f.name, off, len(data), code, kind), nontrivial)
 		st.Count("url " + strings.SplitN(kind, "@", 2)[0])
@@ -546,6 +643,17 @@ func TestC03(t *testing.T) {
 				runURL(f, data, off, 206, append([]byte{}, data[:l]...), true, fmt.Sprintf("truncate@%d", l), true)
 			}
 		}
+	}
+	for _, f := range badForms {
+		if _, err := mh.Sum([]byte("probe"), f.mhtype, f.mhlen); err == nil {
+			continue
+		}
+		data := make([]byte, 9)
+		e.Rng.Read(data)
+		runURL(f, data, 3, 206, data, true, "uncomputable-intact", true)
+		runURL(f, data, 3, 206, append([]byte{data[0] ^ 1}, data[1:]...), true, "uncomputable-flip", true)
+		runURL(f, data, 3, 206, data[:4], true, "uncomputable-truncate", true)
+		runURL(f, data, 3, 404, data, true, "uncomputable-status@404", true)
 	}
 	cs.Close()
 	st.Write(e)
